@@ -3,11 +3,11 @@ package main
 // C17 — chk assertion helpers pass exactly when the expected item is present.
 
 import (
-	"os"
 	"fmt"
 	"go/ast"
 	"go/token"
 	"go/types"
+	"os"
 	"sort"
 	"strings"
 )
